@@ -36,3 +36,40 @@ def match(known, violation):
                 except Exception:
                     pass
     return None
+
+
+# ---------------------------------------------------------------- C05 / C06 (SpecifierSet)
+def _c05_all_clauses(inp):
+    out = []
+    for k in ("clauses", "clauses2", "a", "b", "c"):
+        v = inp.get(k)
+        if isinstance(v, list):
+            out += [x for x in v if isinstance(x, str)]
+    return out
+
+
+@matcher("c05_equal_members_match_differently")
+def c05_equal_members_match_differently(violation, m):
+    """the input holds two clauses with operator m['operator'] that are equal as Specifier objects (so a set keeps
+    only the first inserted one) although they disagree on one of the candidates"""
+    from packaging.specifiers import Specifier
+    inp = violation["input"]
+    cl = [Specifier(c) for c in _c05_all_clauses(inp)]
+    cands = inp.get("cands") or []
+    for i, x in enumerate(cl):
+        for y in cl[i + 1:]:
+            if x.operator == y.operator == m["operator"] and x == y and str(x) != str(y):
+                if any(x.contains(c, prereleases=True) != y.contains(c, prereleases=True) for c in cands):
+                    return True
+    return False
+
+
+@matcher("c05_comma_in_arbitrary")
+def c05_comma_in_arbitrary(violation, m):
+    """str round trip of a set holding an `===` member whose text contains a comma"""
+    from packaging.specifiers import Specifier
+    for c in _c05_all_clauses(violation["input"]):
+        s = Specifier(c)
+        if s.operator == "===" and "," in s.version:
+            return True
+    return False
